@@ -4,6 +4,7 @@ var commonAssume = []string{
 	"seeded search samples histories; a clean batch is evidence, not proof",
 	"the instrumented copy (imports of os/sync/sync-atomic/time/crypto-rand re-pointed to shims, channel ops translated to polling helpers) behaves like the shipped code; the repository's own tests pass against it with inactive shims",
 	"files are real files on tmpfs; third-party code (flock, art, mmap) runs real and un-instrumented",
+	"one run in eight (engines H and S) drives the log through the typed facade TLog[string,string] with StringCodec; there the in-place assignment of offsets/times by Publish is not observable and is completed from the returned next offset and the simulated clock",
 }
 
 func init() {
@@ -82,16 +83,16 @@ func init() {
 		"fsync effects are simulated by the shadow disk model driven by the fsync calls actually made (self-checked against the real directory after every run)",
 	}, commonAssume...)
 	register(&PropDef{ID: "C05", Engine: "K", Profile: "protocol", Gen: genPlanK, RunPlan: runPlanK, Level: "fault_enumeration", QuickS: 60, ThorS: 900,
-		Rule:      "one evaluation = one crash image: a seeded protocol-heavy workload (publish at small rollover, deletes that keep/rebase/empty/remove segments, tail deletes, reopen with migrate/recover) is recorded at the file-system seam; every mutation of the trace (quick: up to 70 per run, biased to deletes/reopens) is a crash point, appends are additionally torn at several byte counts, and the recovery of an image is itself cut again (depth 2); each image is opened with Recover and must show an allowed state, agreeing views, unchanged NextOffset, idempotent recovery, and be appendable and pass Check; distinct_nontrivial counts distinct (operation kind, file-system step, sub-operation, torn, completed) classes of crash points evaluated",
+		Rule:      "one evaluation = one crash image: a seeded protocol-heavy workload (publish at small rollover, deletes that keep/rebase/empty/remove segments, tail deletes, reopen with migrate/recover, process kills without Close followed by a new Open) is recorded at the file-system seam; every mutation of the trace (quick: up to 70 per run, biased to deletes/reopens) is a crash point, appends are additionally torn at several byte counts, and the recovery of an image is itself cut again (depth 2); each image is opened with Recover and must show an allowed state, agreeing views, unchanged NextOffset, idempotent recovery, and be appendable and pass Check; distinct_nontrivial counts distinct (operation kind, file-system step, sub-operation, torn, completed) classes of crash points evaluated",
 		Assume:    kAssume,
 		Technique: "deterministic simulation with fault injection: crash and torn-write images enumerated from the recorded FS trace, depth-2 crashes inside recovery"})
 	register(&PropDef{ID: "C06", Engine: "K", Profile: "protocol", Gen: genPlanC06, RunPlan: runPlanK, Level: "fault_enumeration", QuickS: 60, ThorS: 900,
-		Rule:      "one evaluation = one power-loss image: at every crash point of a recorded workload (with Sync calls, AutoSync in half of the runs, Close) each file is cut back to a length between its last fsynced length and its current length (all-synced, all-full and seeded mixes incl. cuts inside records); after Open(Recover) every message below the acknowledged watermark must be present, the recovered list must be a prefix of the crash-time list and NextOffset >= watermark; a quarter of the runs are concurrent (1-3 publisher tasks and 1-2 Sync callers under the serialized scheduler, FS tap on): there the watermark at a file-system step is the largest offset a Sync (or AutoSync Publish) had returned before the next step; distinct_nontrivial counts distinct crash-point classes at which an image actually lost un-synced bytes",
+		Rule:      "one evaluation = one power-loss image: at every crash point of a recorded workload (with Sync calls, AutoSync in half of the runs, Close, process kills without Close followed by a new Open) each file is cut back to a length between its last fsynced length and its current length (all-synced, all-full and seeded mixes incl. cuts inside records); after Open(Recover) every message below the acknowledged watermark must be present, the recovered list must be a prefix of the crash-time list and NextOffset >= watermark; a quarter of the runs are concurrent (1-3 publisher tasks and 1-2 Sync callers under the serialized scheduler, FS tap on): there the watermark at a file-system step is the largest offset a Sync (or AutoSync Publish) had returned before the next step; distinct_nontrivial counts distinct crash-point classes at which an image actually lost un-synced bytes",
 		Assume:    kAssume,
 		Technique: "deterministic simulation with fault injection: power-loss images (per-file tail loss down to the fsynced length) enumerated from the recorded FS trace"})
 	dAssume := append([]string{"validity of a record is decided by the independent reference codec (CRC-32C, trailer, length sanity); single-byte damage is always detected by CRC-32C"}, commonAssume...)
 	register(&PropDef{ID: "C07", Engine: "D", Gen: genPlanD, RunPlan: runPlanD, Level: "fault_enumeration", QuickS: 45, ThorS: 600,
-		Rule:      "one evaluation = one damaged head segment: a first segment of 3-12 random messages (V2, and V1 for truncations; four index configurations) is built through the real API, then damaged: undamaged, truncation at 0 and every length >= 8, (V2) every byte position >= 8 flipped / 0x00 / 0xFF / random, zero / 0xFF / random / duplicated-record tails of every length up to two records, index removed / truncated at every length / every byte flipped / extra items (quick: seeded sample of 300 per segment; thorough: all); Check and Open(Check) must accept exactly the clean segments, Recover and Open(Recover) must leave exactly the reference codec's longest valid prefix with a matching (or no) index, be a no-op when undamaged, and the result must pass Check before and after further appends; distinct_nontrivial counts distinct (damage kind, file, version, clean?, surviving-prefix length, index present) classes",
+		Rule:      "one evaluation = one damaged head segment: a first segment of 3-12 random messages (V2, and V1 for truncations; four index configurations) is built through the real API, then damaged: undamaged, truncation at 0 and every length >= 8, (V2) every byte position >= 8 flipped / 0x00 / 0xFF / random, zero / 0xFF / random / duplicated-record tails of every length up to two records, index removed / truncated at every length / every byte flipped / extra items, log and index both torn (log cut inside record k+1, index cut to k-1..k+1 items plus a fragment) (quick: seeded sample of 300 per segment; thorough: all); Check and Open(Check) must accept exactly the clean segments, Recover and Open(Recover) must leave exactly the reference codec's longest valid prefix with a matching (or no) index, be a no-op when undamaged, and the result must pass Check before and after further appends; for 30 % of the cases Open with Recover and EagerVersionMigrate to the other format version must also succeed and hold exactly the records of that prefix; distinct_nontrivial counts distinct (damage kind, file, version, clean?, surviving-prefix length, index present) classes",
 		Assume:    dAssume,
 		Technique: "deterministic simulation with fault injection: enumerated stored-byte damage of a head segment, Recover/Check vs reference codec longest-valid-prefix"})
 	register(&PropDef{ID: "C14", Engine: "D", Gen: genPlanD, RunPlan: runPlanD, Level: "fault_enumeration", QuickS: 45, ThorS: 600,
@@ -108,7 +109,7 @@ func init() {
 		Assume:    sAssume,
 		Technique: "deterministic simulation: serialized seeded scheduler over real goroutines (random/PCT/hold), Go race detector under a race-transparent hand-off, porcupine linearizability check"})
 	register(&PropDef{ID: "C18", Engine: "S", Gen: genPlanC18, RunPlan: runPlanS, Race: true, Level: "exploration", QuickS: 60, ThorS: 900,
-		Rule:      "one evaluation = one seeded schedule of 1-8 waiter tasks (ConsumeBlocking / ConsumeByKeyBlocking at offsets below, at, above NextOffset and relative), 0-3 publisher tasks and a controller (cancels, publishes, Close at a chosen yield or at quiescence, waits that start after Close) under the serialized scheduler with yields inside the notifier (atomic loads, barrier token receive/send, close, select); oracles: nobody parked at quiescence who should have been woken, no return without a publish/close/cancel to justify it, successful results linearizable as Consume/ConsumeByKey, context and closed errors only when justified, no deadlock/panic/race; distinct_nontrivial counts distinct schedule signatures of runs with at least one context switch",
+		Rule:      "one evaluation = one seeded schedule of 1-8 waiter tasks (ConsumeBlocking / ConsumeByKeyBlocking at offsets below, at, above NextOffset and relative), 0-3 publisher tasks and a controller (cancels - half of the contexts with a cause -, publishes, Close at a chosen yield or at quiescence, waits that start after Close, waits just below NextOffset that start when all publishers are done) under the serialized scheduler with yields inside the notifier (atomic loads, barrier token receive/send, close, select); oracles: nobody parked at quiescence who should have been woken, no return without a publish/close/cancel to justify it, successful results linearizable as Consume/ConsumeByKey, context and closed errors only when justified, no deadlock/panic/race; distinct_nontrivial counts distinct schedule signatures of runs with at least one context switch",
 		Assume:    sAssume,
 		Technique: "deterministic simulation: serialized seeded scheduler with yields inside the notifier, quiescence checks for lost/spurious wake-ups, porcupine for results"})
 }
